@@ -92,12 +92,16 @@ func (v *StructSchema) process(ctx *p.SchemaCtx) {
 			dataProv = &p.EmptyDataProvider{}
 		}
 	} else {
-		newDp, err := p.TryNewAnyDataProvider(ctx.Data)
+		// data nested somewhere inside the data of another provider is read with that provider's tag
+		newDp, err := p.TryNewAnyDataProviderWithTag(ctx.Data, ctx.SourceTag)
 		if err != nil {
 			ctx.AddIssue(ctx.IssueFromCoerce(err))
 			return
 		}
 		dataProv = newDp
+	}
+	if tagger, ok := dataProv.(p.SourceTagger); ok && ctx.SourceTag == nil {
+		ctx.SourceTag = tagger.SourceTag()
 	}
 
 	// 3. Process / validate struct fields
@@ -117,6 +121,12 @@ func (v *StructSchema) process(ctx *p.SchemaCtx) {
 		destPtr := structVal.FieldByName(key).Addr().Interface()
 
 		subValue, fieldKey := dataProv.GetByField(fieldMeta, originalKey)
+		if _, ok := processor.(*StructSchema); ok {
+			// nested structs read from the nested provider: flat sources (env, form, query) resolve the nested fields against themselves
+			if nested := dataProv.GetNestedProvider(fieldKey); nested != nil {
+				subValue = nested
+			}
+		}
 		subCtx.Data = subValue
 		subCtx.ValPtr = destPtr
 		subCtx.Path.Push(&fieldKey)
